@@ -1044,6 +1044,8 @@ add("C13", "revert: command text token keeps the nested scan's start", "sqlglot/
 add("C13", "benign: merged field name states its whole span in one call", "sqlglot/parser.py",
     "            number = field\n            field = exp.Identifier(this=name, quoted=True).update_positions(number)\n            if last and \"start\" in number.meta:\n                field.update_positions(\n                    line=last.line, col=last.col, start=number.meta[\"start\"], end=last.end\n                )\n",
     "            number = field\n            end = last or self._prev\n            field = exp.Identifier(this=name, quoted=True).update_positions(\n                line=end.line, col=end.col, start=number.meta.get(\"start\"), end=end.end\n            )\n", "silent")
+add("C13", "revert: every part of a split BigQuery name takes the span of the quoted identifier", "sqlglot/parsers/bigquery.py",
+    "                    part.update_positions(written.get(part.name, table.this))\n", "                    part.update_positions(table.this)\n", "C13.n")
 add("C13", "revert: dashed BigQuery name keeps the span of its first fragment", "sqlglot/parsers/bigquery.py",
     "            if last and \"start\" in first.meta:\n                # The merged name ends where its last fragment ends\n                this.update_positions(\n                    line=last.line, col=last.col, start=first.meta[\"start\"], end=last.end\n                )\n", "", "C13.m")
 add("C13", "Athena parse_into drops the source text on the Trino branch", "sqlglot/parsers/athena.py",
